@@ -1331,6 +1331,8 @@ where
         self.pid_pubcomp.clear();
         self.pid_pubrel.clear();
         self.store.clear();
+        // a new session also forgets which inbound QoS 2 messages were already delivered
+        self.qos2_publish_handled.clear();
     }
 
     /// Send all stored packets for retransmission
